@@ -6,6 +6,8 @@
 #   selftest.sh mutants [ID]      every seeded change under /verif/seeded/<name>/patch.diff applied to a
 #                                 SCRATCH COPY of /repo (never to /repo): the named property's quick check
 #                                 must exit 1 with a VIOLATION line; the scratch copy is deleted afterwards
+#   selftest.sh benign [name]    every behaviour-preserving change under /verif/benign/<name>/patch.diff applied to a
+#                                 scratch copy: every quick check must stay quiet
 #   selftest.sh all
 # exit 0 = all fine, 1 = a self-test failed.
 set -u
@@ -79,11 +81,41 @@ mutants() {
   done
 }
 
+# Behaviour-preserving changes (/verif/benign/<name>/patch.diff, applied to a scratch copy): every
+# claimed property's quick check must stay quiet (exit 0, no VIOLATION line).
+benign() {
+  printf '%-44s %s\n' "behaviour-preserving change" "outcome per check"
+  for d in "$VERIF"/benign/*/; do
+    name="$(basename "$d")"
+    [ -f "$d/patch.diff" ] || continue
+    [ -n "$only" ] && [ "$only" != "$name" ] && continue
+    M="$ST/brepo"; rm -rf "$M"; mkdir -p "$M"
+    (cd "$REPO" && tar --exclude=.git -cf - .) | (cd "$M" && tar xf -)
+    if ! (cd "$M" && patch -s -p1 <"$d/patch.diff" 2>"$ST/apply.err"); then
+      printf '%-44s %s\n' "$name" "NOAPPLY $(head -c 200 "$ST/apply.err")"; rc=1; continue
+    fi
+    line=""
+    for p in ${BENIGN_PROPS:-$PROPS}; do
+      out="$(VERIF_REPO="$M" VERIF_EVIDENCE_DIR="$ST/ev" VERIF_REPLAY_DIR="$ST/rp/$name" "$VERIF/check" "$p" quick 2>&1)"; code=$?
+      if [ $code = 0 ] && ! printf '%s\n' "$out" | grep -q '^VIOLATION'; then
+        line="$line $p:quiet"
+      else
+        line="$line $p:ALARM($code)"; rc=1
+        printf '%s\n' "$out" | grep -A3 -m2 '^violated:' | cut -c1-400 >"$ST/alarm-$name-$p.txt"
+        mkdir -p "${BENIGN_LOG_DIR:-$ST}"; cp "$ST/alarm-$name-$p.txt" "${BENIGN_LOG_DIR:-$ST}/" 2>/dev/null
+      fi
+    done
+    printf '%-44s %s\n' "$name" "$line"
+    rm -rf "$M" "$ST/ev"
+  done
+}
+
 case "$what" in
+  benign) benign ;;
   determinism) determinism ;;
   simos) simos ;;
   mutants) mutants ;;
   all) simos; determinism; mutants ;;
-  *) echo "usage: selftest.sh determinism|simos|mutants|all [ID]" >&2; exit 2 ;;
+  *) echo "usage: selftest.sh determinism|simos|mutants|benign|all [ID]" >&2; exit 2 ;;
 esac
 exit $rc
